@@ -373,7 +373,11 @@ func NewBatch(prop, tier string, seed uint64) *Batch {
 		// heavy first, so that static assignment spreads them over workers
 		for i := len(stubLife) - 1; i >= 0; i-- {
 			for hf := uint8(0); hf < 3; hf++ {
-				b.Fixed = append(b.Fixed, wholeLife(fr, stubLife[i], hf, true, 10))
+				viaUnitAbove := uint8(12)
+				if thorough {
+					viaUnitAbove = 14
+				}
+				b.Fixed = append(b.Fixed, wholeLife(fr, stubLife[i], hf, true, viaUnitAbove))
 			}
 		}
 		for i := len(realLife) - 1; i >= 0; i-- {
@@ -422,6 +426,49 @@ func NewBatch(prop, tier string, seed uint64) *Batch {
 			return genHistory(r, c)
 		}
 	case "C02":
+		// fixed: exhaustion and a gauntlet of every refusal class, per height
+		for _, hc := range []struct {
+			h    uint8
+			stub bool
+		}{{16, true}, {14, true}, {12, true}, {10, true}, {8, true}, {6, true}, {4, true}, {6, false}, {4, false}} {
+			leaves := uint32(1) << hc.h
+			for hf := uint8(0); hf < 3; hf++ {
+				inv := func(idx uint32) []Op {
+					js := []uint32{leaves, leaves + 1, 1 << 31, 0xffffffff, 0xfffffffe, leaves + fr.Uint32n(1<<20)}
+					if idx > 0 {
+						js = append(js, idx-1, 0, fr.Uint32n(idx))
+					}
+					var ops []Op
+					for _, j := range js {
+						ops = append(ops, Op{K: "jump", J: j})
+					}
+					return ops
+				}
+				ep := &Episode{Kind: "xmss", Profile: "c02-exhaustion", Height: hc.h, Hash: hf, Stub: hc.stub, SeedHex: seedHex(fr), Twin: "mirror", Drain: "none"}
+				ep.Ops = append(ep.Ops, Op{K: "jump", J: leaves - 3}, signOp(fr, false), signOp(fr, false))
+				ep.Ops = append(ep.Ops, inv(leaves-1)...)
+				ep.Ops = append(ep.Ops, signOp(fr, false), signOp(fr, false)) // last leaf, then refused
+				ep.Ops = append(ep.Ops, inv(leaves)...)
+				ep.Ops = append(ep.Ops, Op{K: "jump", J: leaves - 1}, signOp(fr, false), signOp(fr, false))
+				b.Fixed = append(b.Fixed, ep)
+				mid := 1 + fr.Uint32n(leaves-4)
+				g := &Episode{Kind: "xmss", Profile: "c02-gauntlet", Height: hc.h, Hash: hf, Stub: hc.stub, SeedHex: seedHex(fr), Twin: "mirror", Drain: "tail:6", DrainSeed: fr.Uint64()}
+				if hc.stub || mid < 24 {
+					g.Ops = append(g.Ops, Op{K: "jump", J: mid})
+				} else {
+					mid = 3
+					g.Ops = append(g.Ops, Op{K: "jump", J: mid})
+				}
+				for _, o := range inv(mid) {
+					g.Ops = append(g.Ops, o, signOp(fr, false))
+					mid++
+					if mid >= leaves-1 {
+						break
+					}
+				}
+				b.Fixed = append(b.Fixed, g)
+			}
+		}
 		b.Random = 700
 		if thorough {
 			b.Random = 12000
@@ -481,6 +528,22 @@ func NewBatch(prop, tier string, seed uint64) *Batch {
 				}
 			}
 		}
+		// signing path vs fast-forward path at every index: the live key signs
+		// its whole life, the twin follows by SetIndex only
+		swh := []uint8{12, 10, 8, 6, 4}
+		if thorough {
+			swh = []uint8{14, 12, 10, 8, 6, 4}
+		}
+		for _, h := range swh {
+			for hf := uint8(0); hf < 3; hf++ {
+				b.Fixed = append(b.Fixed, &Episode{Kind: "xmss", Profile: "c08-signwalk", Height: h, Hash: hf, Stub: true, SeedHex: seedHex(fr), Twin: "ff", Drain: "none",
+					Ops: []Op{{K: "walk", N: uint32(1) << h, Via: "sign", ML: 32, MS: fr.Uint64()}}})
+			}
+		}
+		for hf := uint8(0); hf < 3; hf++ {
+			b.Fixed = append(b.Fixed, &Episode{Kind: "xmss", Profile: "c08-signwalk", Height: 6, Hash: hf, Stub: false, SeedHex: seedHex(fr), Twin: "ff", Drain: "none",
+				Ops: []Op{{K: "walk", N: 64, Via: "sign", ML: 32, MS: fr.Uint64()}}})
+		}
 		if thorough {
 			sweep(8, true)
 			sweep(6, false)
@@ -500,7 +563,7 @@ func NewBatch(prop, tier string, seed uint64) *Batch {
 		b.gen = func(r *core.Rand, e int) *Episode {
 			c := HistCfg{Profile: "c08-hist", Hash: uint8(r.Intn(3)), Twin: []string{"mirror", "unit", "sign"}[r.Intn(3)]}
 			if r.Chance(0.2) {
-				hs := []uint8{4, 6, 6, 8}
+				hs := []uint8{4, 4, 6, 6, 6, 8}
 				if thorough {
 					hs = []uint8{4, 6, 8, 8, 10}
 				}
@@ -514,21 +577,21 @@ func NewBatch(prop, tier string, seed uint64) *Batch {
 				}
 			} else {
 				c.Stub = true
-				hs := []uint8{4, 6, 8, 10, 12, 14, 16}
+				hs := []uint8{4, 6, 8, 8, 10, 10, 12, 14}
 				if thorough {
 					hs = []uint8{6, 8, 10, 12, 14, 16, 18}
 				}
 				c.Height = pickHeight(r, hs)
 				c.NOps = r.Range(6, 40)
 				c.MaxSigns = 24
-				if c.Height >= 14 {
+				if c.Height >= 12 {
 					c.MaxDist = 2500
-					if c.Twin == "sign" {
+					if c.Twin == "sign" { // a signing twin pays a WOTS signature per skipped index
 						c.Twin = "unit"
 					}
 				}
 				c.Drain = "full"
-				if c.Height > 12 {
+				if c.Height > 10 && !(thorough && c.Height == 12) {
 					c.Drain = "tail:60"
 				}
 			}
